@@ -387,18 +387,15 @@ def minimize_lbfgsb(
         f0 = checkpoint.fun
 
     # potential update of stop criterion
-    if ftarget is not None:
-        try:
-            _ftarget: Optional[float] = ftarget()  # type: ignore
-        except TypeError:
-            _ftarget = ftarget  # type: ignore
+    if callable(ftarget):
+        _ftarget: Optional[float] = ftarget()
     else:
-        _ftarget = None
+        _ftarget = ftarget
 
-    try:
-        _gtol: float = gtol()  # type: ignore
-    except TypeError:
-        _gtol = gtol  # type: ignore
+    if callable(gtol):
+        _gtol: float = gtol()
+    else:
+        _gtol = gtol
 
     # Create an internal state instance
     istate = InternalState()
